@@ -4,6 +4,7 @@ package main
 // state, obligations, heap primitives, contract application.
 
 import (
+	"regexp"
 	"fmt"
 	"os"
 	"sync"
@@ -50,6 +51,7 @@ type loopCtx struct {
 }
 
 type FuncExec struct {
+	callSeq  int               // numbers the call sites met so far (provenance tags)
 	selfTerm string            // literals: the constant naming the closure value being executed
 	initCopy bool              // copying into the sub-objects of an object being created by a composite literal
 	tagOf    map[string]string // provenance of assumptions (for "using" hints)
@@ -345,7 +347,8 @@ func (fx *FuncExec) structValInfo(t types.Type) *StructInfo {
 			}
 		}
 	}
-	if u, ok := t.Underlying().(*types.Struct); ok && u.NumFields() > 0 {
+	_, isNamed := t.(*types.Named)
+	if u, ok := t.Underlying().(*types.Struct); ok && (u.NumFields() > 0 || isNamed) {
 		s := fx.reg.SortOf(t)
 		return fx.reg.structs[s]
 	}
@@ -564,6 +567,13 @@ func (fx *FuncExec) oblige(st *State, kind, label, goalSMT, goalText string, pos
 	name += fx.suffix
 	o := &Obligation{Name: name, Func: fx.fi.Key, Kind: kind, Label: label, Pos: fx.posStr(pos), Goal: goalText,
 		PC: append(append([]string(nil), st.pc...), st.guards...), Neg: goalSMT, Expect: "unsat", fx: fx}
+	if fx.contract != nil {
+		for _, h := range fx.contract.KindHints {
+			if h.Re.MatchString(kind + "/" + label) {
+				o.Using = h.Using
+			}
+		}
+	}
 	fx.obls = append(fx.obls, o)
 	return o
 }
@@ -1074,9 +1084,15 @@ func (fx *FuncExec) assumeTagged(st *State, f, tag string) {
 	}
 }
 
+var tagSeqRe = regexp.MustCompile(`#[0-9]+`)
+
 func tagMatches(tag string, using []string) bool {
+	tag = tagSeqRe.ReplaceAllString(tag, "")
 	for _, u := range using {
-		if tag == u || strings.HasPrefix(tag, u+".") {
+		if strings.HasSuffix(u, "!") {
+			continue // "latest call" patterns are resolved in sliceUsing
+		}
+		if tag == u || strings.HasPrefix(tag, u+".") || strings.HasSuffix(tag, "."+u) {
 			return true
 		}
 	}
@@ -1084,8 +1100,36 @@ func tagMatches(tag string, using []string) bool {
 }
 
 // sliceUsing keeps every unquantified assumption and the quantified ones whose
-// provenance tag is named by the hint.
+// provenance tag is named by the hint. A hint "Callee!" names the ensures of
+// the most recent call of Callee only.
 func (fx *FuncExec) sliceUsing(pc []string, using []string) []string {
+	latest := map[string]string{} // callee -> "callee#seq" of its last call among pc
+	for _, u := range using {
+		if strings.HasSuffix(u, "!") {
+			latest[strings.TrimSuffix(u, "!")] = ""
+		}
+	}
+	if len(latest) > 0 {
+		for _, p := range pc {
+			t, ok := fx.tagOf[p]
+			if !ok {
+				continue
+			}
+			i := strings.Index(t, "#")
+			if i < 0 {
+				continue
+			}
+			callee := t[:i]
+			if _, want := latest[callee]; !want {
+				continue
+			}
+			inst := t
+			if j := strings.Index(t[i:], "."); j >= 0 {
+				inst = t[:i+j]
+			}
+			latest[callee] = inst // pc is in program order: the last one wins
+		}
+	}
 	var out []string
 	for _, p := range pc {
 		if !strings.Contains(p, "(forall ") && !strings.Contains(p, "(exists ") {
@@ -1094,8 +1138,19 @@ func (fx *FuncExec) sliceUsing(pc []string, using []string) []string {
 			}
 			continue
 		}
-		if t, ok := fx.tagOf[p]; ok && tagMatches(t, using) {
+		t, ok := fx.tagOf[p]
+		if !ok {
+			continue
+		}
+		if tagMatches(t, using) {
 			out = append(out, p)
+			continue
+		}
+		for _, inst := range latest {
+			if inst != "" && (t == inst || strings.HasPrefix(t, inst+".")) {
+				out = append(out, p)
+				break
+			}
 		}
 	}
 	return out
